@@ -18,12 +18,13 @@ func init() {
 	register(&Property{
 		ID: "C16",
 		Explanation: "Decided: (R1) every map update / delete on a version vector's map targets a map created in the same function or returned by a function proved fresh-returning (Clone, the constructors) — never the receiver's or a parameter's map — and slices handed in are copied before being sorted/truncated; (R2) the vector's writer and reader agree on the wire and validate against the same cap; " +
-			"(R3, informational) counters loaded from the maps flow only into comparisons, copies and the single +1 of Increment. " +
+			"(R3, informational) counters loaded from the maps flow only into comparisons, copies and the single +1 of Increment; (R4) that +1 is dominated by the strict test counter < K where K is the bound above which the reader rejects counters, so a successful Increment never produces a vector that cannot be read back. " +
 			"NOT decided, stated plainly: reflexivity / antisymmetry / transitivity of Compare, commutativity / associativity / idempotence / leastness of Merge, strictness of Increment. These are arithmetic facts over all inputs; deciding them needs execution or a solver, both outside this technique. A mutation of Compare or Merge that keeps R1–R2 intact is NOT detected by this check.",
 		Rules: []Rule{
 			{ID: "C16.R1", Min: 6, Desc: "operands are never modified (ownership of the map)", Fn: c16Ownership},
 			{ID: "C16.R2", Min: 2, Desc: "serialisation symmetry and common cap", Fn: c16Wire},
 			{ID: "C16.R3", Min: 1, Desc: "data independence of counters (informational)", Fn: c16DataIndependence},
+			{ID: "C16.R4", Min: 1, Desc: "Increment stays within the reader's counter bound", Fn: c16IncrementCap},
 		},
 	})
 	register(&Property{
@@ -39,17 +40,101 @@ func init() {
 			{ID: "C17.R5", Min: 2, Desc: "vector only joins / prunes", Fn: c17VectorAssign},
 			{ID: "C17.R6", Min: 3, Desc: "changed flag is sound", Fn: c17Changed},
 			{ID: "C17.R7", Min: 2, Desc: "incarnation order: generation decides first", Fn: c17Generation},
+			{ID: "C17.R8", Min: 2, Desc: "vector order does not short-circuit the member comparison or the join", Fn: c17NoShortcut},
 		},
 	})
 	register(&Property{
 		ID: "C18",
 		Explanation: "Convergence, exact membership and stability quantify over fault sequences, delivery orders and timer phases of a distributed run; no static argument in reach bounds them and they are NOT decided. One structural necessary condition is decided: (R1) the leader is a deterministic function of the membership view — the leader computation reaches no nondeterminism source (random numbers, clocks, package-level mutable state), reads only member address and status, sorts (or min-reduces) what it collects from the map before indexing it, and the publisher derives IAmLeader from that value only. " +
-			"(R2) the gossip suppression predicate answers 'send' whenever the peer's vector is unknown or the own vector is After / Concurrent with respect to it, and 'skip' only when it is Before or Equal (truth table of the predicate over its atoms). A mutation in join, target selection or failure detection is NOT detected.",
+			"(R2) the gossip suppression predicate answers 'send' whenever the peer's vector is unknown or the own vector is After / Concurrent with respect to it, and 'skip' only when it is Before or Equal (truth table of the predicate over its atoms). (R3) the generation bump of a re-joining node reads the previous incarnation from the seed's reply (directly, or from the own view after merging the reply). Any other mutation in join, target selection or failure detection is NOT detected.",
 		Rules: []Rule{
 			{ID: "C18.R1", Min: 4, Desc: "leader is a deterministic function of the view", Fn: c18Leader},
 			{ID: "C18.R2", Min: 6, Desc: "gossip is suppressed only towards peers known to be at least as new", Fn: c18Suppression},
+			{ID: "C18.R3", Min: 1, Desc: "restart generation decided against the merged reply", Fn: c18RestartGeneration},
 		},
 	})
+}
+
+// c18RestartGeneration: a node that re-joins under its previous id must end up with a generation above the one the cluster
+// still holds, otherwise no peer adopts the new incarnation (C17: the higher generation wins) and the views never agree
+// again. The previous generation is only known from the seed's reply: the member lookup that feeds `Generation = prev+1`
+// reads the reply's view directly, or reads the own view at a point dominated by the merge of the reply.
+func c18RestartGeneration(p *Program, r *Report) {
+	vr := p.viewRoles()
+	if vr == nil {
+		r.Unresolved("cluster view roles")
+		return
+	}
+	genF := fieldVar(vr.State, "Generation")
+	if genF == nil {
+		r.Unresolved("NodeState.Generation")
+		return
+	}
+	mergeFns := map[*ssa.Function]bool{vr.Merge: true}
+	for _, fn := range p.methodsOf(vr.View) { // thin wrappers (MergeFrom) count as the merge
+		for _, b := range fn.Blocks {
+			for _, in := range b.Instrs {
+				if c := callOf(in); c != nil && c.StaticCallee() == vr.Merge {
+					mergeFns[fn] = true
+				}
+			}
+		}
+	}
+	n := 0
+	for _, fn := range p.Mod {
+		pk := fnPkg(fn)
+		if pk == nil || !strings.HasSuffix(pk.Path(), "/internal/cluster") || len(fn.Blocks) == 0 {
+			continue
+		}
+		g := p.ig(fn)
+		for _, in := range g.Nodes {
+			st, ok := in.(*ssa.Store)
+			if !ok {
+				continue
+			}
+			if f, _ := fieldAddr(st.Addr); f != genF {
+				continue
+			}
+			bo, ok := st.Val.(*ssa.BinOp)
+			if !ok || bo.Op != token.ADD {
+				continue
+			}
+			// prev.Generation + 1 where prev is a member lookup
+			f, base := fieldLoad(bo.X)
+			if f != genF {
+				continue
+			}
+			var lk *ssa.Lookup
+			switch x := strip(base).(type) {
+			case *ssa.Lookup:
+				lk = x
+			case *ssa.Extract:
+				lk, _ = x.Tuple.(*ssa.Lookup)
+			}
+			if lk == nil {
+				continue
+			}
+			mf, mbase := fieldLoad(lk.X)
+			if mf != vr.Members {
+				continue
+			}
+			n++
+			construct := "restart generation in " + fnName(fn)
+			if anyContains(p.origins(mbase), "JoinResponse") {
+				r.Check(true, construct, st.Pos(), "the previous incarnation is looked up in the seed's reply itself")
+				continue
+			}
+			merges := nodesWhere(g, func(in ssa.Instruction) bool {
+				c := callOf(in)
+				return c != nil && c.StaticCallee() != nil && mergeFns[c.StaticCallee()]
+			})
+			r.Check(len(merges) > 0 && g.DominatedByNodes(g.Idx[lk], merges), construct, st.Pos(),
+				"the member lookup that yields the previous generation is dominated by the merge of the seed's reply: the bump is decided against what the cluster still holds, not only against the node's own fresh entry")
+		}
+	}
+	if n == 0 {
+		r.Unresolved("no `Generation = previous.Generation + 1` from a member lookup found")
+	}
 }
 
 func (p *Program) vvType() (*types.Named, *types.Var) {
@@ -260,6 +345,73 @@ func c16Wire(p *Program, r *Report) {
 	}
 	cw, cr := capOf(w), capOf(rd)
 	r.Check(cw > 0 && cw == cr, "writer and reader validate against the same entry cap", rd.Pos(), fmt.Sprintf("writer rejects more than %d entries, reader rejects more than %d", cw, cr))
+}
+
+// c16IncrementCap: the only arithmetic on counters is Increment's +1. Its result must stay inside what the reader accepts:
+// the reader rejects counters > K, so the +1 must be dominated by the strict test current < K (interval argument on one
+// comparison: current <= K-1 ⇒ current+1 <= K). A guard that lets current == K through produces a vector that cannot be read back.
+func c16IncrementCap(p *Program, r *Report) {
+	vv := p.Named("internal/cluster", "VersionVector")
+	rd := p.Func("internal/cluster", "ReadVersionVector")
+	if vv == nil || rd == nil {
+		r.Unresolved("VersionVector / ReadVersionVector")
+		return
+	}
+	// reader's bound: edge `count > K` on a 64-bit unsigned wire value
+	readerK := int64(-1)
+	for _, ifi := range ifsOf(rd) {
+		for _, outcome := range []bool{true, false} {
+			f, ok := condFact(ifi.Cond, outcome)
+			if !ok || f.Y != nil || f.IsNil || f.Bool {
+				continue
+			}
+			if b, isB := f.X.Type().Underlying().(*types.Basic); !isB || b.Kind() != types.Uint64 {
+				continue
+			}
+			if f.Op == token.GTR && f.C > 1<<32 {
+				readerK = f.C
+			}
+			if f.Op == token.GEQ && f.C > 1<<32 {
+				readerK = f.C - 1
+			}
+		}
+	}
+	if readerK < 0 {
+		r.Unresolved("reader-side upper bound on counters")
+		return
+	}
+	n := 0
+	for _, fn := range p.methodsOf(vv) {
+		g := p.ig(fn)
+		for i, in := range g.Nodes {
+			bo, ok := in.(*ssa.BinOp)
+			if !ok || bo.Op != token.ADD {
+				continue
+			}
+			if b, isB := bo.Type().Underlying().(*types.Basic); !isB || b.Kind() != types.Uint64 {
+				continue
+			}
+			one, isC := constInt(bo.Y)
+			if !isC || one != 1 {
+				continue
+			}
+			if !anyContains(p.origins(bo.X), "lookup") {
+				continue
+			}
+			n++
+			strict := g.edgesWhere(func(f cmpFact) bool {
+				if f.Y != nil || f.IsNil || f.Bool || !sameValue(f.X, bo.X) {
+					return false
+				}
+				return (f.Op == token.LSS && f.C <= readerK) || (f.Op == token.LEQ && f.C <= readerK-1)
+			})
+			r.Check(len(strict) > 0 && g.DominatedByEdges(i, strict), "counter+1 in "+fnName(fn)+" stays within the reader's bound", bo.Pos(),
+				fmt.Sprintf("the increment is dominated by an edge asserting counter < %d; the reader accepts counters <= %d, so every vector produced by a successful Increment can be read back", readerK, readerK))
+		}
+	}
+	if n == 0 {
+		r.Unresolved("no counter increment found in the version vector's methods")
+	}
 }
 
 func c16DataIndependence(p *Program, r *Report) {
@@ -617,6 +769,74 @@ func c17VectorAssign(p *Program, r *Report) {
 	if n == 0 {
 		r.Unresolved("no assignment of the view's version vector in the merge")
 	}
+}
+
+// c17NoShortcut: the merge looks at every member of the other view and joins the vectors whatever the order of the two
+// vectors is: vector order does not summarise member state (AddMember, adoption and re-joins do not always advance the
+// vector). Every path from the entry to a return passes the range over other's member table and the vector join, except
+// returns taken on an edge that found the other view empty (nil view, nil table, zero length).
+func c17NoShortcut(p *Program, r *Report) {
+	vr := p.viewRoles()
+	if vr == nil {
+		r.Unresolved("cluster view roles")
+		return
+	}
+	fn := vr.Merge
+	if len(fn.Params) < 2 {
+		r.Unresolved("merge(other)")
+		return
+	}
+	other := fn.Params[1]
+	g := p.igx(fn)
+	fromOtherMembers := func(v ssa.Value) bool {
+		f, b := fieldLoad(strip(v))
+		return f == vr.Members && strip(b) == ssa.Value(other)
+	}
+	ranges := nodesWhere(g, func(in ssa.Instruction) bool {
+		rg, ok := in.(*ssa.Range)
+		return ok && fromOtherMembers(rg.X)
+	})
+	vvF := fieldVar(vr.View, "VersionVector")
+	joins := nodesWhere(g, func(in ssa.Instruction) bool {
+		st, ok := in.(*ssa.Store)
+		if !ok {
+			return false
+		}
+		f, _ := fieldAddr(st.Addr)
+		return f == vvF
+	})
+	if len(ranges) == 0 || len(joins) == 0 {
+		r.Unresolved("range over the other view's members / vector assignment in the merge")
+		return
+	}
+	empty := map[edge]bool{}
+	for _, ifi := range g.ifs() {
+		for _, outcome := range []bool{true, false} {
+			f, ok := condFact(ifi.Cond, outcome)
+			if !ok {
+				continue
+			}
+			x := strip(f.X)
+			isEmpty := false
+			switch {
+			case f.IsNil && f.Op == token.EQL && (x == ssa.Value(other) || fromOtherMembers(x)):
+				isEmpty = true
+			case !f.IsNil && f.Y == nil && !f.Bool && ((f.Op == token.EQL && f.C == 0) || (f.Op == token.LEQ && f.C == 0) || (f.Op == token.LSS && f.C == 1)):
+				if c, isC := x.(*ssa.Call); isC {
+					if b, isB := c.Call.Value.(*ssa.Builtin); isB && b.Name() == "len" && fromOtherMembers(c.Call.Args[0]) {
+						isEmpty = true
+					}
+				}
+			}
+			if isEmpty {
+				empty[g.branchEdge(ifi, outcome)] = true
+			}
+		}
+	}
+	r.Check(!anyIn(g.Reach(g.entry(), ranges, empty), g.Exits), "merge compares every member of the other view", firstPos(g, ranges),
+		"no return is reachable without passing the range over other's member table, except on an edge that found the other view empty: the order of the two version vectors never short-circuits the per-member comparison")
+	r.Check(!anyIn(g.Reach(g.entry(), joins, empty), g.Exits), "merge always joins the vectors", firstPos(g, joins),
+		"no return is reachable without assigning the joined vector, except on an edge that found the other view empty")
 }
 
 func c17Changed(p *Program, r *Report) {
